@@ -203,8 +203,8 @@ def run_kani_group(group_key, units, jobs=4):
         ok_status = ('SUCCESS', 'Success', 'UNREACHABLE', 'Unreachable')
         bad = [c for c in normal if c.get('status') not in ok_status]
         r.discharged = len(normal) - len(bad)
-        sat = pd.get('satisfied', 0)
-        unsat = pd.get('unsatisfiable', 0)
+        sat = pd.get('satisfied') or 0
+        unsat = pd.get('unsatisfiable') or 0
         r.covers = (sat, sat + unsat)
         r.samples = [{'check': c.get('id'), 'description': c.get('description'),
                       'function': c.get('function'),
